@@ -157,7 +157,7 @@ def run(rep, tier):
             rep.fail("failing-input", f"{case['family']} {case['params']} with {' '.join(case['options'])}: a loop whose condition is concrete was reported as cut (LOOP_BOUND)",
                      case=full, sig={"kind": "concrete-loop-cut", "family": case["family"]})
             continue
-        if bb["concrete_loop"] and case["family"] == "regular" and status != "FAIL":
+        if bb["concrete_loop"] and case["family"] == "regular" and status != "FAIL" and not reported:
             rep.fail("failing-input", f"{case['family']} {case['params']} with {' '.join(case['options'])}: concrete-count loop, every input reaches Panic(1), halmos says {status} {warns}",
                      case=full, sig={"kind": "concrete-loop-not-followed", "family": case["family"]})
             continue
